@@ -188,7 +188,7 @@ def body_rotation(spec):
         set_is_using_hardware(hardware)
         try:
             try:
-                out = tr._map_single_gate(instr)
+                out = tr._handle_single_qubit_gate(instr)      # the entry point transpile() uses for rotations (wraps _map_single_gate)
                 raised = None
             except (PathAbort, Infeasible):
                 raise
